@@ -116,6 +116,7 @@ const (
 	kPast             // earlier time
 	kFuture           // time beyond now+drift
 	kPastSmall        // 0.4 s before the predecessor (still after the trusted header unless first)
+	kSame             // the very same header as its predecessor in the range (the trusted header itself when first)
 	nKinds
 )
 
@@ -152,6 +153,14 @@ func c02Case(first uint64, kinds []int) {
 			h.T = now + hour
 		case kPastSmall:
 			h.T = prevT - 400e6
+		case kSame:
+			h = t
+			for i := len(us) - 1; i >= 0; i-- {
+				if us[i] != nil {
+					h = us[i]
+					break
+				}
+			}
 		}
 		us = append(us, h)
 		if h != nil {
